@@ -30,27 +30,41 @@ impl FileLock {
         unsafe { std::mem::zeroed() }
     }
 
+    /// Returns the command that sets or clears a lock.
+    ///
+    /// A traditional record lock belongs to the process and is released as soon as the process
+    /// closes *any* descriptor of the file, e.g. after the file has been opened again in order
+    /// to copy it. Where available, a lock that belongs to the open file description is used.
+    /// It conflicts with the traditional locks held by other processes in the same way.
+    #[cfg(any(target_os = "linux", target_os = "android"))]
+    fn set_lock_arg(f: &libc::flock) -> nix::fcntl::FcntlArg<'_> {
+        nix::fcntl::FcntlArg::F_OFD_SETLK(f)
+    }
+
+    #[cfg(all(unix, not(any(target_os = "linux", target_os = "android"))))]
+    fn set_lock_arg(f: &libc::flock) -> nix::fcntl::FcntlArg<'_> {
+        nix::fcntl::FcntlArg::F_SETLK(f)
+    }
+
     #[cfg(unix)]
     #[allow(clippy::unnecessary_cast)]
     fn fcntl_lock(file: &File) -> io::Result<()> {
-        use nix::fcntl::*;
         use std::os::unix::io::AsRawFd;
         let mut f = Self::new_flock();
         f.l_type = libc::F_WRLCK as i16;
         f.l_whence = libc::SEEK_SET as i16;
-        let result = nix::fcntl::fcntl(file.as_raw_fd(), FcntlArg::F_SETLK(&f));
+        let result = nix::fcntl::fcntl(file.as_raw_fd(), Self::set_lock_arg(&f));
         Self::nix_as_io_error(result).map(|_| {})
     }
 
     #[cfg(unix)]
     #[allow(clippy::unnecessary_cast)]
     fn fcntl_unlock(file: &File) -> io::Result<()> {
-        use nix::fcntl::*;
         use std::os::unix::io::AsRawFd;
         let mut f = Self::new_flock();
         f.l_type = libc::F_UNLCK as i16;
         f.l_whence = libc::SEEK_SET as i16;
-        let result = nix::fcntl::fcntl(file.as_raw_fd(), FcntlArg::F_SETLK(&f));
+        let result = nix::fcntl::fcntl(file.as_raw_fd(), Self::set_lock_arg(&f));
         Self::nix_as_io_error(result).map(|_| {})
     }
 
